@@ -782,3 +782,11 @@ VARIANTS += [
     ("cnn-new-layer-kernel-over-max", _CNN, "k_size = np.random.randint(2, max_kernels[-1] + 1)", "k_size = np.random.randint(2, max_kernels[-1] + 2)", "fire", "C03.6"),
     ("cnn-new-layer-kernel-unrelated-bound", _CNN, "k_size = np.random.randint(2, max_kernels[-1] + 1)", "k_size = np.random.randint(2, self.stride_size[-1] + 1)", "fire", "C03.6"),
 ]
+VARIANTS += [
+    ("cnn-add-channel-layer-zero-means-unset", _CNN, "        :rtype: dict[str, int]\n        \"\"\"\n        if hidden_layer is None:\n            hidden_layer = np.random.randint(0, len(self.channel_size), 1)[0]\n        else:\n            hidden_layer = min(hidden_layer, len(self.channel_size) - 1)\n",
+     "        :rtype: dict[str, int]\n        \"\"\"\n        if not hidden_layer:\n            hidden_layer = np.random.randint(0, len(self.channel_size), 1)[0]\n        else:\n            hidden_layer = min(hidden_layer, len(self.channel_size) - 1)\n", "fire", "C03.14"),
+    ("cnn-add-channel-is-not-none-ok", _CNN, "        :rtype: dict[str, int]\n        \"\"\"\n        if hidden_layer is None:\n            hidden_layer = np.random.randint(0, len(self.channel_size), 1)[0]\n        else:\n            hidden_layer = min(hidden_layer, len(self.channel_size) - 1)\n",
+     "        :rtype: dict[str, int]\n        \"\"\"\n        if hidden_layer is not None:\n            hidden_layer = min(hidden_layer, len(self.channel_size) - 1)\n        else:\n            hidden_layer = np.random.randint(0, len(self.channel_size), 1)[0]\n", "silent", None),
+    ("actor-max-latent-dim-not-forwarded", "agilerl/networks/actors.py", "            max_latent_dim=max_latent_dim,\n            n_agents=n_agents,\n            latent_dim=latent_dim,\n            simba=simba,\n            recurrent=recurrent,\n            device=device,\n        )\n\n        if isinstance(action_space, spaces.Box):\n            self.action_low",
+     "            n_agents=n_agents,\n            latent_dim=latent_dim,\n            simba=simba,\n            recurrent=recurrent,\n            device=device,\n        )\n\n        if isinstance(action_space, spaces.Box):\n            self.action_low", "fire", "C03.15"),
+]
